@@ -207,6 +207,43 @@ fn arb_mutant() -> SBoxedStrategy<Vec<u8>> {
         .sboxed()
 }
 
+/// a sentence in which one number is replaced by a value that wraps onto it in a narrower integer type (n + 2^8, 2^16, 2^32), or that gets
+/// one character of Unicode / control white space attached to an end (only ASCII white space may be stripped)
+fn arb_wrap_or_space() -> SBoxedStrategy<Vec<u8>> {
+    (prop_oneof![arb_sentence(false), arb_sentence(true)], any::<u32>(), 0u8..8, proptest::sample::select(vec!["\u{b}", "\u{85}", "\u{a0}", "\u{2003}", "\u{2028}", "\u{3000}", "\u{1c}", "\u{feff}", "\u{200b}"]), any::<bool>())
+        .prop_map(|(s, pos, kind, ws, front)| {
+            if kind < 5 {
+                // find the digit runs
+                let b = s.as_bytes();
+                let mut runs = vec![];
+                let mut i = 0;
+                while i < b.len() {
+                    if b[i].is_ascii_digit() {
+                        let st = i;
+                        while i < b.len() && b[i].is_ascii_digit() {
+                            i += 1;
+                        }
+                        runs.push((st, i));
+                    } else {
+                        i += 1;
+                    }
+                }
+                if runs.is_empty() {
+                    return s.into_bytes();
+                }
+                let (a, e) = runs[idx(pos, runs.len())];
+                let v: u128 = s[a..e].parse().unwrap_or(0);
+                let add: u128 = [256, 65_536, 4_294_967_296, 512, 131_072][kind as usize];
+                format!("{}{}{}", &s[..a], v + add, &s[e..]).into_bytes()
+            } else if front {
+                format!("{ws}{s}").into_bytes()
+            } else {
+                format!("{s}{ws}").into_bytes()
+            }
+        })
+        .sboxed()
+}
+
 pub fn run(ctx: &Ctx) -> Outcome {
     let mut out = Outcome::new(
         "(a) grammar-directed sentences with independent spelling choices (optional '+', '-', 0-12 leading zeros, h / h:m / h:m:s, boundary values 24, 24:59:59, 167, alphabetic vs quoted names of length 3..7, each optional part present/absent, three day notations at range ends) in both modes; \
@@ -232,7 +269,7 @@ pub fn run(ctx: &Ctx) -> Outcome {
         }
     }
     // fixed regression strings (IANA footers and the crate's documented examples)
-    let fixed = ["UTC0", "EST5EDT,M3.2.0,M11.1.0", "CET-1CEST,M3.5.0,M10.5.0/3", "<-03>3<-02>,M3.5.0/-2,M10.5.0/-1", "IST-2IDT,M3.4.4/26,M10.5.0", "EST5EDT,0/0,J365/25", "HST10", "<+0330>-3:30", "AAA-0:30", "NZST-12NZDT,M9.5.0,M4.1.0/3", "WGT3WGST,M3.5.0/-2,M10.5.0/-1", "AAA0BBB", "AAA0BBB1", "AAA0BBB,J1", "AAA", "AAA24:59:59", "AAA25", " AAA0 ", "AAA0BBB-2,J3/-72,J364/120", "EST+5EDT,M3.2.0/2:00:00,M11.1.0/2:00:00x"];
+    let fixed = ["UTC0", "EST5EDT,M3.2.0,M11.1.0", "CET-1CEST,M3.5.0,M10.5.0/3", "<-03>3<-02>,M3.5.0/-2,M10.5.0/-1", "IST-2IDT,M3.4.4/26,M10.5.0", "EST5EDT,0/0,J365/25", "HST10", "<+0330>-3:30", "AAA-0:30", "NZST-12NZDT,M9.5.0,M4.1.0/3", "WGT3WGST,M3.5.0/-2,M10.5.0/-1", "AAA0BBB", "AAA0BBB1", "AAA0BBB,J1", "AAA", "AAA24:59:59", "AAA25", " AAA0 ", "AAA0BBB,M259.1.0,J300", "AAA0BBB,J65537,J300", "AAA0BBB,65536,J300", "AAA0BBB,M3.257.0,J300", "AAA0BBB,M3.1.256,J300", "EST5\u{b}", "\u{a0}EST5", "AAA0BBB,J1/24,J300/24:00:00", "AAA256", "AAA0:256", "AAA0BBB-2,J3/-72,J364/120", "EST+5EDT,M3.2.0/2:00:00,M11.1.0/2:00:00x"];
     let rs = par_shards(1, |_, st| {
         for s in fixed {
             check_enum("str", &StrCase { s: s.as_bytes().to_vec() }, st, |c, st| check_str(c, st, true))?;
@@ -282,6 +319,13 @@ pub fn run(ctx: &Ctx) -> Outcome {
         if out.failure.is_some() {
             return out;
         }
+    }
+    // (c') wrap candidates and non-ASCII white space
+    let strat = arb_wrap_or_space().prop_map(|s| StrCase { s });
+    let rs = par_shards(8, |shard, st| pt_shard(ctx, "str", 400 + shard, cases, &strat, st, |c, st| check_str(c, st, false)));
+    out.absorb_all(rs);
+    if out.failure.is_some() {
+        return out;
     }
     // (c) mutations
     let strat = arb_mutant().prop_map(|s| StrCase { s });
